@@ -68,7 +68,8 @@ def env():
         }
         vtypes = {k: validated(f, name=k) for k, f in preds.items()}
         _ENV.update(
-            classes={"A": A, "B": B, "C": C, "Other": Other, "S": S, "S2": S2, "int": int, "str": str, "bool": bool, "float": float},
+            classes={"A": A, "B": B, "C": C, "Other": Other, "S": S, "S2": S2, "int": int, "str": str, "bool": bool, "float": float,
+                     "list": list, "tuple": tuple, "dict": dict, "NoneType": type(None)},
             preds=preds, vtypes=vtypes, bounded=bounded, check_type=check_type, bcache={},
         )
     return _ENV
@@ -119,6 +120,9 @@ def build_type(D):
     if k == "type":
         c = typing.Any if D[1] == "Any" else e["classes"][D[1]]
         return typing.Type[c] if D[2] == "typing" else type[c]
+    if k == "typeof":
+        t = _param(D[1], D[2])
+        return typing.Type[t] if D[2] == "typing" else type[t]
     if k == "union":
         ts = [build_type(t) for t in D[1]]
         if D[2] == "pep604":
@@ -154,6 +158,8 @@ def depth(D):
         return 1 + max([depth(t) for t in D[1]] or [0])
     if k == "type":
         return 1
+    if k == "typeof":
+        return 1 + depth(D[1])
     return 0
 
 
@@ -228,6 +234,8 @@ def conforms(v, D):
         return isinstance(v, tuple) and all(conforms(x, D[1]) for x in v)
     if k == "type":
         return isinstance(v, type) and (D[1] == "Any" or issubclass(v, e["classes"][D[1]]))
+    if k == "typeof":
+        return isinstance(v, type) and subclass_of(v, D[1])
     if k == "union":
         return any(conforms(v, t) for t in D[1])
     if k == "optional":
@@ -256,6 +264,29 @@ def conforms(v, D):
     if k == "validated":
         return e["preds"][D[1]](v)
     raise AssertionError(D)
+
+
+def subclass_of(c, D):
+    """Type[T] for a parameterised T: the subclass relation against what T denotes as a class."""
+    e = env()
+    k = D[0]
+    if k == "any":
+        return True
+    if k in ("int", "float", "str", "bool", "bytes"):
+        return issubclass(c, {"int": int, "float": float, "str": str, "bool": bool, "bytes": bytes}[k])
+    if k == "none":
+        return c is type(None)
+    if k == "cls":
+        return issubclass(c, e["classes"][D[1]])
+    if k in ("list", "set", "dict", "tuple", "vtuple"):
+        return issubclass(c, {"list": list, "set": set, "dict": dict, "tuple": tuple, "vtuple": tuple}[k])
+    if k == "union":
+        return any(subclass_of(c, t) for t in D[1])
+    if k == "optional":
+        return c is type(None) or subclass_of(c, D[1])
+    if k == "literal":
+        return False  # a literal value is not a class
+    return None  # (bounded / validated / nested Type: not generated under Type[...])
 
 
 # ---------------------------------------------------------------------------
@@ -299,6 +330,11 @@ REDUCED = [["any"], ["int"], ["float"], ["str"], ["none"], ["cls", "A"], ["liter
            ["bounded", "float", {"gt": 0, "le": 1.0}]]
 HASHABLE_KINDS = {"int", "float", "str", "bool", "bytes", "none", "cls", "literal", "bounded", "validated"}
 TYPE_TARGETS = ["A", "B", "S", "int", "Other", "Any"]
+TYPEOF_TARGETS = [
+    ["optional", ["int"]], ["optional", ["list", ["int"], "typing"]], ["union", [["int"], ["str"]], "typing"], ["union", [["int"], ["list", ["int"], "typing"]], "typing"],
+    ["list", ["int"], "typing"], ["list", ["int"], "pep585"], ["vtuple", ["int"], "typing"], ["dict", ["str"], ["int"], "typing"], ["literal", ["a", "b", 1]], ["none"],
+    ["union", [["cls", "A"], ["none"]], "pep604"],
+]
 KEY_TYPES = [["int"], ["str"], ["float"], ["bool"], ["any"], ["literal", ["a", "b", 1]], ["bounded", "int", {"ge": 0}], ["union", [["int"], ["str"]], "typing"]]
 
 
@@ -310,7 +346,7 @@ def hashable_type(D):
         return all(hashable_type(t) for t in D[1])
     if k in ("vtuple", "optional"):
         return hashable_type(D[1])
-    if k == "type":
+    if k in ("type", "typeof"):
         return True
     return False  # any / list / set / dict
 
@@ -340,6 +376,10 @@ def gen_type(src, d, need_hashable=False):
     if p == "vtuple":
         return ["vtuple", gen_type(src, d - 1, need_hashable), style]
     if p == "type":
+        if d >= 2 and src.choice(3) == 0:
+            # Type[T] with a parameterised T (a union / optional / generic / literal): the subclass relation against what T denotes
+            inner = TYPEOF_TARGETS[src.choice(len(TYPEOF_TARGETS))]
+            return ["typeof", inner, style]
         return ["type", TYPE_TARGETS[src.choice(len(TYPE_TARGETS))], style]
     if p == "optional":
         return ["optional", gen_type(src, d - 1, need_hashable)]
@@ -354,6 +394,7 @@ GENERAL_POOL = [
     ["dict", []], ["dict", [["a", 1]]], ["dict", [[1, "a"]]], ["dict", [["a", None]]],
     ["inst", "A"], ["inst", "B"], ["inst", "C"], ["inst", "S"], ["inst", "S2"], ["inst", "Other"],
     ["class", "A"], ["class", "B"], ["class", "C"], ["class", "S"], ["class", "Other"], ["class", "int"], ["class", "bool"], ["class", "str"],
+    ["class", "list"], ["class", "NoneType"],
 ]
 
 WRONG = {
@@ -466,6 +507,10 @@ def gen_value(src, D, good):
             return ["class", subs[src.choice(len(subs))]]
         bad = [["class", n] for n in ("A", "B", "C", "S", "Other", "int", "str") if n not in SUBCLASSES[D[1]]] + [["inst", "A"], 1, None]
         return bad[src.choice(len(bad))]
+    if k == "typeof":
+        pool = [["class", n] for n in ("A", "B", "S", "Other", "int", "bool", "str", "list", "tuple", "dict", "NoneType")] + [["inst", "A"], 1, None]
+        cands = [c for c in pool if conforms(realize(c), D) == good]
+        return (cands or pool)[src.choice(len(cands or pool))]
     if k == "union":
         i = src.choice(len(D[1]))
         return gen_value(src, D[1][i], good)
